@@ -415,21 +415,23 @@ def sweep_c08(rng, tier):
                     if n < 24 and uw in ("hours",) and False: continue
                     e = st + delta
                     cases.append(("%s %02d:%02d for %d %s" % (ds, hh, mm, n, uw), ts0, {})); exp.append(I(T(d.year, d.month, d.day, hh, mm), T(e.year, e.month, e.day, e.hour, e.minute))); fam.append("datetime for N " + uw)
-    # N days/nights <date range>: accepted only when the range is N days long
-    def range_pred(a, b, n):
+    # N days/nights <date range>: accepted only when the range really is N days long.  "Accepted" = the duration words are
+    # consumed into the resolution (its span covers the whole text); the bare range has the same value, so the span decides.
+    def range_pred(a, b, n, ok_expected, text):
         def pred(rec):
             if rec.get("err"): return False
             full = I(dT(a), dT(b))
-            if (b - a).days == n:
-                return rec.get("res") == full
-            return True     # a wrong N must not matter for anything the property demands beyond "not accepted as consistent": see unit correspondence
+            consumed = rec.get("res") == full and rec.get("ms") == 0 and rec.get("me") == len(text)
+            return consumed if ok_expected else not consumed
         return pred
-    for a, b in [(date(2020, 11, 15), date(2020, 11, 18)), (date(2020, 11, 15), date(2020, 12, 16)), (date(2020, 2, 27), date(2020, 3, 2)), (date(2019, 12, 30), date(2020, 1, 2))]:
+    for a, b in [(date(2020, 11, 15), date(2020, 11, 18)), (date(2020, 11, 15), date(2020, 12, 16)), (date(2020, 2, 27), date(2020, 3, 2)), (date(2019, 12, 30), date(2020, 1, 2)),
+                 (date(2020, 1, 31), date(2020, 3, 1)), (date(2019, 11, 15), date(2020, 2, 20))]:
         n = (b - a).days
-        for form in ("%d days %s - %s", "%s - %s for %d days", "%s - %s %d nights"):
+        for form in ("%d days %s - %s", "%s - %s for %d days", "%s - %s %d nights", "%s - %s für %d tage"):
             A = "%d.%d.%d" % (a.day, a.month, a.year); B = "%d.%d.%d" % (b.day, b.month, b.year)
-            txt = form % ((n, A, B) if form.startswith("%d") else (A, B, n))
-            cases.append((txt, ts0, {})); exp.append(range_pred(a, b, n)); fam.append("N days + range")
+            for nn in (n, 1 if n != 1 else 2, n % 30 if n % 30 not in (0, n) else n + 1, n + 30):
+                txt = form % ((nn, A, B) if form.startswith("%d") else (A, B, nn))
+                cases.append((txt, ts0, {})); exp.append(range_pred(a, b, n, nn == n, txt)); fam.append("N days + range" + ("" if nn == n else " (wrong N)"))
     recs = parse_many(cases)
     return finish("C08", cases, exp, recs, "N in 0..120 x unit words of the pattern language (digits, glued and blank separated); correctly spelt number words one..thirtyone / ein..einunddreissig x unit words; "
                   "half forms; '<date[ time]> for N units' from month ends and leap days vs calendar arithmetic; 'N days <range>' with the right N", families=fam)
@@ -458,21 +460,57 @@ def c20_clocks(rng):
     return sorted(set(clocks))
 
 
+def c20_families(rng, ts):
+    """day families and clock families (each a list of surface forms), incl. the boundary 'weekday named = weekday of the reference day'"""
+    d = date(ts[0], ts[1], ts[2])
+    dws = G.dow_words()
+    own = dws[d.weekday()]
+    other = [w for k, ws in enumerate(dws) if k != d.weekday() for w in ws]
+    at = G.L("ruleAtDOW")
+    dayf = {
+        "today": G.L("ruleToday"), "tomorrow": G.L("ruleTomorrow"), "aftertomorrow": G.L("ruleAfterTomorrow"), "yesterday": G.L("ruleYesterday") + G.L("ruleBeforeYesterday"),
+        "eom/eoy": G.L("ruleEOM") + G.L("ruleEOY"),
+        "weekday": rng.sample(other, 6), "weekday = today's": rng.sample(own, min(3, len(own))),
+        "at weekday": [a + " " + w for a in at for w in rng.sample(other, 2)], "at weekday = today's": [a + " " + w for a in at for w in rng.sample(own, 2)],
+        "next weekday": ["next " + w for w in rng.sample(other + own, 4)] + [w + " next week" for w in rng.sample(other + own, 3)] + ["nächsten " + w for w in rng.sample(other, 2)],
+        "numeric date": ["12.12.2020", "1.2.2021", "31/12/2019", "29.02.2020", "3-3-2021"], "day of month": ["5th", "the 5th", "5.", "23.", "am 5."],
+        "day + month": ["5. mai", "may 5th", "5th of may", "12.5.", "31.12.", "dec 24", "3 march 2021", "march 3rd"],
+    }
+    clockf = collections.defaultdict(list)
+    for h in [0, 1, 7, 9, 11, 12, 13, 17, 23]:
+        for m in [0, 5, 30, 59]:
+            clockf["hh:mm"].append("%02d:%02d" % (h, m)); clockf["h:mm"].append("%d:%02d" % (h, m)); clockf["h:mm uhr"].append("%d:%02d uhr" % (h, m)); clockf["hhmm h"].append("%dh%02d" % (h, m))
+            h12 = h % 12 or 12; ap = "am" if h < 12 else "pm"
+            clockf["h:mm ap"].append("%d:%02d %s" % (h12, m, ap)); clockf["h:mmap"].append("%d:%02d%s" % (h12, m, ap)); clockf["h.mm ap"].append("%d.%02d %s" % (h12, m, ap))
+            if m % 5 == 0:
+                clockf["hhmm"].append("%02d%02d" % (h, m)); clockf["hhmm uhr"].append("%02d%02d uhr" % (h, m))
+        clockf["h uhr"].append("%d uhr" % h); clockf["hh"].append("%dh" % h); clockf["h oclock"].append("%d o'clock" % h)
+        clockf["h ap"].append("%d %s" % (h % 12 or 12, "am" if h < 12 else "pm")); clockf["hap"].append("%d%s" % (h % 12 or 12, "am" if h < 12 else "pm"))
+    clockf["named hour"] = rng.sample(G.L("ruleNamedHour"), 12)
+    clockf["spoken"] = ["half past 8", "quarter to nine", "viertel vor 9", "halb 9", "quarter past 3", "midnight", "mitternacht"]
+    return dayf, dict(clockf)
+
+
 def sweep_c20(rng, tier):
-    days = c20_days(rng, 0); clocks = c20_clocks(rng)
     tss = [(2018, 3, 7, 12, 43, 0), (2020, 2, 28, 23, 59, 30), (2019, 12, 31, 0, 0, 0), (2021, 3, 5, 18, 0, 0), (2021, 3, 3, 18, 0, 0)]
-    n = 6000 if tier == "thorough" else 700
-    combos = [(rng.choice(days), rng.choice(clocks), rng.choice(tss), rng.choice(["%s %s", "%s at %s", "%s um %s", "rev"])) for _ in range(n)]
-    # stand-alone parts first
+    reps = 3 if tier == "thorough" else 1
+    combos = []
+    for ts in (tss if tier == "thorough" else rng.sample(tss, 3)):
+        dayf, clockf = c20_families(rng, ts)
+        for dn, ds in dayf.items():
+            for cn, cs in clockf.items():
+                for form in ["%s %s", "%s at %s", "%s um %s", "rev"]:
+                    for _ in range(reps):
+                        combos.append((rng.choice(ds), rng.choice(cs), ts, form, dn + " x " + cn))
     solo_cases = {}
-    for d, c, ts, form in combos:
+    for d, c, ts, form, famname in combos:
         solo_cases[(d, ts, True)] = (d, ts, {})
         solo_cases[(c, ts, False)] = (c, ts, {"latent_time": False})
     keys = list(solo_cases)
     solo = dict(zip(keys, parse_many([solo_cases[k] for k in keys])))
     cases, exp, fam = [], [], []
     skipped = collections.Counter()
-    for d, c, ts, form in combos:
+    for d, c, ts, form, famname in combos:
         rd, rc = solo[(d, ts, True)], solo[(c, ts, False)]
         td = dec_time(rd["res"][2:]) if rd.get("res", "") and rd["res"].startswith("T:") else None
         tc = dec_time(rc["res"][2:]) if rc.get("res", "") and rc["res"].startswith("T:") else None
@@ -484,9 +522,16 @@ def sweep_c20(rng, tier):
         if form == "rev" and c.startswith("12") and d.startswith("am "):
             skipped["excluded-by-property"] += 1
             continue
-        cases.append((txt, ts, {})); exp.append(T(td["y"], td["m"], td["d"], tc["h"], tc["mi"])); fam.append("day+clock " + ("clock first" if form == "rev" else form))
+        # a clock ending in a number directly followed by a day form starting with a month name or a number is itself a date
+        # notation ('9 dec 24' = 9 December '24, '8 5.' ...): genuinely ambiguous juxtaposition, not asked
+        months_flat = {w for ws in G.month_words() for w in ws}
+        if form == "rev" and c[-1].isdigit() and (d[0].isdigit() or d.split(" ")[0].lower() in months_flat):
+            skipped["ambiguous-number+date-juxtaposition"] += 1
+            continue
+        cases.append((txt, ts, {})); exp.append(T(td["y"], td["m"], td["d"], tc["h"], tc["mi"])); fam.append(("clock first: " if form == "rev" else form + ": ") + famname)
     recs = parse_many(cases)
-    r = finish("C20", cases, exp, recs, "random (day form x clock form x order/connector x reference time); expected = date the day part alone resolves to at hour:minute the clock part alone denotes "
-               "(latent off); combinations whose parts alone are not a pure date / pure clock are skipped (counted)", families=fam)
+    r = finish("C20", cases, exp, recs, "every (day family x clock family x order/connector) at several reference times incl. the boundary 'named weekday = weekday of the reference day'; expected = date the day part alone "
+               "resolves to at hour:minute the clock part alone denotes (latent off); combinations whose parts alone are not a pure date / pure clock are skipped (counted)", families=fam)
+    r["distribution"] = {"families": len(set(fam)), "cases": len(cases)}
     r["distribution"].update({"skipped:" + k: v for k, v in skipped.items()})
     return r
